@@ -568,3 +568,202 @@ func strconvQuote(s string) string {
 	}
 	return fmt.Sprintf("%q", s)
 }
+
+// ruleSetToNotifs: R-SET2NOTIF (C23).
+func ruleSetToNotifs(c *Ctx, r *Report) {
+	r.Rule("R-SET2NOTIF", "DiffSetRequestToNotifications keys notification leaves like intent leaves (fullPathStr(prefix of the notification, update path), populateUpdate with the caller's schema, overwrites allowed); classifies each intent leaf as mismatched exactly when present with !reflect.DeepEqual (A = intent, B = notification), common when present and equal, missing otherwise, and removes it from the leftovers unconditionally; reports as extra only leftovers strictly below a deleted/replaced path (prefix + \"/\")", 8)
+	f := c.MustFunc(r, "gnmidiff", "DiffSetRequestToNotifications")
+	if f == nil {
+		return
+	}
+	info := f.Info()
+	// intent of the set request.
+	ic := CallsIn(info, f.Decl.Body, P("gnmidiff")+".minimalSetRequestIntent")
+	okI := len(ic) == 1 && paramIndex(f, ObjOf(info, ic[0].Args[0])) == 0 && paramIndex(f, ObjOf(info, ic[0].Args[1])) == 2 && errTestedAfter(c, f, f.Decl.Body, ic[0])
+	r.Check(okI, "gnmidiff.DiffSetRequestToNotifications:intent", c.Pos(f.Decl.Pos()), "minimal intent of the SetRequest with the caller's schema", "the SetRequest side is not its minimal intent under the caller's schema")
+	var intentObj types.Object
+	if okI {
+		if as, ok := c.parentMap(f.File)[ic[0]].(*ast.AssignStmt); ok {
+			intentObj = ObjOf(info, as.Lhs[0])
+		}
+	}
+	// notification leaves.
+	fp := CallsIn(info, f.Decl.Body, P("gnmidiff")+".fullPathStr")
+	ps := CallsIn(info, f.Decl.Body, P("gnmidiff")+".prefixStr")
+	pu := CallsIn(info, f.Decl.Body, P("gnmidiff")+".setRequestIntent.populateUpdate")
+	okN := len(fp) == 1 && len(ps) == 1 && len(pu) == 1
+	if okN {
+		var prefObj, pathObj types.Object
+		if as, ok := c.parentMap(f.File)[ps[0]].(*ast.AssignStmt); ok {
+			prefObj = ObjOf(info, as.Lhs[0])
+		}
+		if as, ok := c.parentMap(f.File)[fp[0]].(*ast.AssignStmt); ok {
+			pathObj = ObjOf(info, as.Lhs[0])
+		}
+		sel, isSel := ast.Unparen(ps[0].Args[0]).(*ast.SelectorExpr)
+		okN = isSel && sel.Sel.Name == "Prefix" && ObjOf(info, fp[0].Args[0]) == prefObj && prefObj != nil && strings.HasSuffix(types.ExprString(fp[0].Args[1]), ".Path") &&
+			len(pu[0].Args) == 4 && ObjOf(info, pu[0].Args[0]) == pathObj && paramIndex(f, ObjOf(info, pu[0].Args[2])) == 2 &&
+			errTestedAfter(c, f, f.Decl.Body, ps[0]) && errTestedAfter(c, f, f.Decl.Body, fp[0]) && (isIfInit(c, f, pu[0]) || errTestedAfter(c, f, f.Decl.Body, pu[0]))
+		if v, ok := ConstOf(info, pu[0].Args[3]); !ok || v != "false" {
+			okN = false
+		}
+	}
+	r.Check(okN, "gnmidiff.DiffSetRequestToNotifications:notification-leaves", c.Pos(f.Decl.Pos()), "fullPathStr(prefixStr(notif.Prefix), upd.Path) → populateUpdate(path, val, schema, false); all errors returned", "notification leaves are not keyed/expanded like intent leaves (prefix, path, schema) or errors are dropped")
+	// classification loop.
+	var loop *ast.RangeStmt
+	ast.Inspect(f.Decl.Body, func(n ast.Node) bool {
+		if rs, ok := n.(*ast.RangeStmt); ok {
+			if sel, ok := ast.Unparen(rs.X).(*ast.SelectorExpr); ok && sel.Sel.Name == "Updates" && ObjOf(info, sel.X) == intentObj && intentObj != nil {
+				loop = rs
+			}
+		}
+		return true
+	})
+	if loop == nil {
+		r.Und("gnmidiff.DiffSetRequestToNotifications:classification-loop", c.Pos(f.Decl.Pos()), "loop over the intent's updates not found")
+		return
+	}
+	vA := ObjOf(info, loop.Value)
+	var vB, okObj types.Object
+	ast.Inspect(loop.Body, func(n ast.Node) bool {
+		if as, ok := n.(*ast.AssignStmt); ok && len(as.Lhs) == 2 && len(as.Rhs) == 1 {
+			if ix, ok := ast.Unparen(as.Rhs[0]).(*ast.IndexExpr); ok && loop.Key != nil && ObjOf(info, ix.Index) == ObjOf(info, loop.Key) {
+				vB, okObj = ObjOf(info, as.Lhs[0]), ObjOf(info, as.Lhs[1])
+			}
+		}
+		return true
+	})
+	classOK := map[string]bool{}
+	ast.Inspect(loop.Body, func(n ast.Node) bool {
+		as, ok := n.(*ast.AssignStmt)
+		if !ok || len(as.Lhs) != 1 {
+			return true
+		}
+		ix, ok := as.Lhs[0].(*ast.IndexExpr)
+		if !ok {
+			return true
+		}
+		sel, ok := ast.Unparen(ix.X).(*ast.SelectorExpr)
+		if !ok {
+			return true
+		}
+		facts := c.FactsAt(f, as, false)
+		hasOK, notOK, neq, eqOrNone := false, false, false, true
+		extraConj := 0
+		for _, ft := range facts {
+			if ft.Kind != "cond" {
+				continue
+			}
+			if ObjOf(info, ft.Cond) == okObj && okObj != nil {
+				if ft.Pos {
+					hasOK = true
+				} else {
+					notOK = true
+				}
+			}
+			if call, isCall := ast.Unparen(ft.Cond).(*ast.CallExpr); isCall && IsCall(info, call, "reflect.DeepEqual") && len(call.Args) == 2 {
+				o1, o2 := ObjOf(info, call.Args[0]), ObjOf(info, call.Args[1])
+				if !ft.Pos && ((o1 == vA && o2 == vB) || (o1 == vB && o2 == vA)) && vA != nil && vB != nil {
+					neq = true
+					continue
+				}
+				_ = eqOrNone
+			}
+			// any further positive conjunct of the arm's own condition narrows the classification.
+			if ft.Pos && !(ObjOf(info, ft.Cond) == okObj) {
+				if cl := c.enclosingCase(f, as); cl != nil && ft.Cond.Pos() >= cl.Pos() && ft.Cond.End() <= cl.End() {
+					extraConj++
+				}
+			}
+			if !ft.Pos && !(ObjOf(info, ft.Cond) == okObj) {
+				if cl := c.enclosingCase(f, as); cl != nil && ft.Cond.Pos() >= cl.Pos() && ft.Cond.End() <= cl.End() {
+					if call, isCall := ast.Unparen(ft.Cond).(*ast.CallExpr); !isCall || !IsCall(info, call, "reflect.DeepEqual") {
+						extraConj++
+					} else if o1, o2 := ObjOf(info, call.Args[0]), ObjOf(info, call.Args[1]); !((o1 == vA && o2 == vB) || (o1 == vB && o2 == vA)) {
+						extraConj++
+					}
+				}
+			}
+		}
+		switch sel.Sel.Name {
+		case "MismatchedUpdates":
+			sides := false
+			if cl, ok := ast.Unparen(as.Rhs[0]).(*ast.CompositeLit); ok {
+				a, b := false, false
+				for _, el := range cl.Elts {
+					if kv, ok := el.(*ast.KeyValueExpr); ok {
+						switch kv.Key.(*ast.Ident).Name {
+						case "A":
+							a = ObjOf(info, kv.Value) == vA
+						case "B":
+							b = ObjOf(info, kv.Value) == vB
+						}
+					}
+				}
+				sides = a && b
+			}
+			classOK["mismatched"] = hasOK && neq && sides && extraConj == 0
+		case "CommonUpdates":
+			// present and not (present and unequal): the tagless switch negates the earlier case.
+			negEarlier := false
+			for _, ft := range facts {
+				if ft.Kind == "cond" && !ft.Pos && len(CallsIn(info, ft.Cond, "reflect.DeepEqual")) > 0 {
+					negEarlier = true
+				}
+			}
+			classOK["common"] = hasOK && negEarlier && extraConj == 0 && ObjOf(info, as.Rhs[0]) == vA
+		case "MissingUpdates":
+			// default arm: earlier `ok` cases negated.
+			classOK["missing"] = (notOK || !hasOK) && extraConj == 0 && ObjOf(info, as.Rhs[0]) == vA
+		}
+		return true
+	})
+	for _, k := range []string{"mismatched", "common", "missing"} {
+		r.Check(classOK[k], "gnmidiff.DiffSetRequestToNotifications:class:"+k, c.Pos(loop.Pos()), k+" classified by (present, DeepEqual) with the intent's value on side A", "an intent leaf is classified as "+k+" under a condition other than the (present in notifications, reflect.DeepEqual) table, or with the sides exchanged")
+	}
+	// removal from leftovers: a top-level statement of the loop body.
+	rem := false
+	for _, s := range loop.Body.List {
+		if es, ok := s.(*ast.ExprStmt); ok {
+			if call, ok := es.X.(*ast.CallExpr); ok {
+				if id, ok := call.Fun.(*ast.Ident); ok && id.Name == "delete" && len(call.Args) == 2 && loop.Key != nil && ObjOf(info, call.Args[1]) == ObjOf(info, loop.Key) {
+					rem = true
+				}
+			}
+		}
+	}
+	r.Check(rem, "gnmidiff.DiffSetRequestToNotifications:handled-removed", c.Pos(loop.Pos()), "every intent path is removed from the leftover notification leaves", "an intent leaf is not removed from the leftovers on every path: it can be reported as extra as well")
+	// extras.
+	extraOK := false
+	ast.Inspect(f.Decl.Body, func(n ast.Node) bool {
+		call, ok := n.(*ast.CallExpr)
+		if !ok || !strings.HasSuffix(FullName(Callee(info, call)), "trie.Trie.PrefixSearch") || len(call.Args) != 1 {
+			return true
+		}
+		be, ok := ast.Unparen(call.Args[0]).(*ast.BinaryExpr)
+		if !ok || be.Op != token.ADD {
+			return true
+		}
+		if v, ok := ConstOf(info, be.Y); ok && v == `"/"` {
+			// delPath ranges over the intent's Deletes.
+			if lp, ok := c.EnclosingLoop(f, call).(*ast.RangeStmt); ok {
+				if outer, ok := c.EnclosingLoop(f, lp).(*ast.RangeStmt); ok {
+					if sel, ok := ast.Unparen(outer.X).(*ast.SelectorExpr); ok && sel.Sel.Name == "Deletes" && ObjOf(info, sel.X) == intentObj && ObjOf(info, be.X) == ObjOf(info, outer.Key) {
+						extraOK = true
+					}
+				}
+			}
+		}
+		return true
+	})
+	r.Check(extraOK, "gnmidiff.DiffSetRequestToNotifications:extras-under-deletes", c.Pos(f.Decl.Pos()), "extras = leftovers with prefix <deleted path>/", "extra updates are not the leftovers strictly below a deleted/replaced path (missing the \"/\" boundary matches sibling names that merely share a prefix)")
+	// notifications with deletes are refused (documented TODO), not silently ignored.
+	del := false
+	ast.Inspect(f.Decl.Body, func(n ast.Node) bool {
+		if is, ok := n.(*ast.IfStmt); ok && strings.Contains(types.ExprString(is.Cond), ".Delete") && terminates(info, is.Body.List) {
+			del = true
+		}
+		return true
+	})
+	r.Check(del, "gnmidiff.DiffSetRequestToNotifications:notif-deletes-refused", c.Pos(f.Decl.Pos()), "notifications carrying deletes are an error (unsupported), never ignored", "deletes in notifications are silently ignored")
+}
